@@ -48,4 +48,62 @@ theorem types_conflict_source_unique (s : SchemaD) (f : Ty → Ty → Bool)
   | .nonNull a, .named b => by rw [hf]; simp [typesConflict, Tr._types_conflict_step, Ty.isWrapping, Ty.isList, Ty.isNonNull, Ty.sameCtor]
   | .nonNull a, .list b => by rw [hf]; simp [typesConflict, Tr._types_conflict_step, Ty.isWrapping, Ty.isList, Ty.isNonNull, Ty.sameCtor]
 
+/-! ### `_same_arguments` -/
+
+private theorem insertBy_eq (a : Arg) : ∀ l : List Arg,
+    Py.insertBy (fun x y : String => decide (x < y)) Arg.name a l = insertArg a l
+  | [] => rfl
+  | b :: bs => by simp only [Py.insertBy, insertArg, insertBy_eq a bs, decide_eq_true_eq]
+
+private theorem sortedBy_eq (l : List Arg) :
+    Py.sortedBy (fun x y : String => decide (x < y)) (fun a => Arg.name a) l = sortArgs l := by
+  unfold Py.sortedBy sortArgs
+  congr 1
+  funext acc a
+  exact insertBy_eq a acc
+
+private theorem sameArgsZip_eq : ∀ xs ys : List Arg,
+    sameArgsZip xs ys = some ((List.zip xs ys).all (fun (a1, a2) => a1.name == a2.name && sameValue a1.value a2.value))
+  | [], _ => by simp [sameArgsZip]
+  | _ :: _, [] => by simp [sameArgsZip]
+  | x :: xs, y :: ys => by
+    rw [sameArgsZip, sameArgsZip_eq xs ys]
+    by_cases hn : x.name = y.name <;> cases hv : sameValue x.value y.value <;> simp [hn, hv]
+
+/-- **`_same_arguments`: model = source** (`a.name.value` / `a.value` read as the model's fields, `_same_value` as `sameValue`,
+    `<` on names as Lean's `String` order — both compare code point by code point). The source never raises. -/
+theorem same_arguments_model_eq_source (a b : List Arg) :
+    Tr._same_arguments (fun x y : String => decide (x < y)) Arg.name Arg.value sameValue a b
+      = .ok ((sameArguments a b).getD false)
+    ∧ (sameArguments a b).isSome = true := by
+  unfold Tr._same_arguments sameArguments
+  by_cases hl : a.length = b.length
+  · simp [Py.len, hl, sortedBy_eq, sameArgsZip_eq]
+  · have h1 : (Py.len a != Py.len b) = true := by
+      rw [bne_iff_ne]; unfold Py.len; intro h; exact hl (Int.ofNat.inj h)
+    have h2 : (a.length != b.length) = true := by simp [hl]
+    simp [h1, h2]
+
+/-! ### `_same_value` -/
+
+/-- `type(v)` of a literal in the model: the constructor -/
+def classOf : Value → Nat
+  | .var _ => 0 | .int _ => 1 | .float _ => 2 | .str _ => 3 | .bool _ => 4 | .null => 5 | .enum _ => 6 | .list _ => 7 | .obj _ => 8
+
+/-- `v.value` of the literals that have one (what `==` compares: the lexeme / text / boolean) -/
+def valueOf : Value → String
+  | .int a => a | .float a => a | .str a => a | .enum a => a | .bool b => if b then "True" else "False"
+  | _ => ""
+
+/-- **`_same_value`: model = source.** `print_ast(a) == print_ast(b)` on lists, objects, null and variables is read as the
+    model's own structural comparison (the printed form of a literal determines it and is determined by it: C03). -/
+theorem same_value_model_eq_source (a b : Value) :
+    @Tr._same_value Value Nat Value String _ ⟨sameValue⟩ _ classOf
+        (fun v => match v with | .list _ => true | _ => false) (fun v => match v with | .obj _ => true | _ => false)
+        (fun v => match v with | .null => true | _ => false) (fun v => match v with | .var _ => true | _ => false)
+        id valueOf a b
+      = .ok (sameValue a b) := by
+  cases a <;> cases b <;> simp [Tr._same_value, classOf, valueOf, sameValue]
+  rename_i x y; cases x <;> cases y <;> decide
+
 end PyGql.Props.C06
